@@ -76,7 +76,8 @@ def grid(full=True):
             times.append(base)
             if len(parts) == 3:
                 for f in ('S', 'SS', 'SSS'):
-                    times.append(base + '.' + f)
+                    for fsep in (('.', ':', ' ', '-', '/') if tsep == ':' else ('.',)):
+                        times.append(base + fsep + f)
     times.append('HHmmss')
     out = list(dates)
     for dpat in dates:
